@@ -11,10 +11,11 @@ from __future__ import annotations
 
 import hashlib
 
-from ..exprs import ORDERINGS, PLANS, Explorer, State, case_of, contains_zero_factor, level, plan_shards, rebuild, struct_key
+from ..exprs import all_envs, ORDERINGS, PLANS, Explorer, State, case_of, contains_zero_factor, level, plan_shards, rebuild, struct_key
 from ..runner import Res
 
 TITLE = "Canonicalisation never changes what an expression means"
+SIG_ENVS = all_envs(linked=True, plus=True)
 
 
 def shards(tier):
@@ -47,7 +48,7 @@ def signature(ex, st, world):
     keys = sorted(st.free, key=str)
     cache = {}
     vals = []
-    for env in ex.envs:
+    for env in SIG_ENVS:  # one fixed environment list, so that signatures from different alphabets are comparable
         k = tuple(env.get(x) for x in keys)
         if k not in cache:
             cache[k] = st.value(env, world)
